@@ -67,7 +67,8 @@ def make_doc(kind_index):
     for p in (PType("BCNT_T", "Integer", IntEnc(16)), PType("BF_T", "Float", FloatEnc(32)), PType("BSEL_T", "Integer", IntEnc(8)),
               PType("BX_T", "Integer", IntEnc(8))):
         ptypes[p.name] = p
-    for p in (Param("B_CNT", "BCNT_T"), Param("B_F", "BF_T"), Param("P_SEL", "BSEL_T"), Param("P_X", "BX_T"), Param("P_Y", "BX_T")):
+    for p in (Param("B_CNT", "BCNT_T"), Param("B_F", "BF_T"), Param("P_SEL", "BSEL_T"), Param("P_X", "BX_T"), Param("P_Y", "BX_T"),
+              Param("R_SEL", "BSEL_T"), Param("R_T", "BCNT_T"), Param("R_M", "BX_T")):
         params[p.name] = p
     conts = (Container("CCSDSPacket", header_entries(), abstract=True),
              Container("A", a_entries, base="CCSDSPacket", criteria=(Cmp("PKT_APID", "==", "1"),)),
@@ -75,7 +76,11 @@ def make_doc(kind_index):
              # a polymorphic APID: the field set depends on a decoded value
              Container("P", (("p", "P_SEL"),), base="CCSDSPacket", criteria=(Cmp("PKT_APID", "==", "3"),)),
              Container("PX", (("p", "P_X"),), base="P", criteria=(Cmp("P_SEL", "==", "0"),)),
-             Container("PY", (("p", "P_Y"),), base="P", criteria=(Cmp("P_SEL", "!=", "0"),)))
+             Container("PY", (("p", "P_Y"),), base="P", criteria=(Cmp("P_SEL", "!=", "0"),)),
+             # one APID, ONE field set, two field orders (two revisions of a layout): still one dataset
+             Container("R", (("p", "R_SEL"),), base="CCSDSPacket", criteria=(Cmp("PKT_APID", "==", "4"),)),
+             Container("RA", (("p", "R_T"), ("p", "R_M")), base="R", criteria=(Cmp("R_SEL", "==", "0"),)),
+             Container("RB", (("p", "R_M"), ("p", "R_T")), base="R", criteria=(Cmp("R_SEL", "!=", "0"),)))
     return Doc(tuple(ptypes.values()), tuple(params.values()), conts)
 
 
@@ -290,6 +295,17 @@ def _task_one(task):
                                                                          "packets": [p.hex() for p in mix][:6]}, string_encoded,
                               defn_arg=xml_path if use_raw else pathlib.Path(xml_path))
             os.unlink(xml_path)
+            # (e) one APID whose packets share one field set but not one field order
+            r_pkts = [framing.mk_packet(bytes([0, 0x12, 0x34, 0x56]), apid=4, seqcount=1), framing.mk_packet(bytes([1, 0x78, 0x9A, 0xBC]), apid=4, seqcount=2),
+                      framing.mk_packet(bytes([0, 0xFF, 0xFF, 0x00]), apid=4, seqcount=3), framing.mk_packet(bytes([9, 0x00, 0x00, 0x01]), apid=4, seqcount=4)]
+            for n in (2, 3):
+                for seq in itertools.product(range(4), repeat=n):
+                    if len({r_pkts[i][6] == 0 for i in seq}) < 2:
+                        continue
+                    pk = [r_pkts[i] for i in seq] + b_pkts[:1]
+                    for use_raw in (False, True):
+                        check_dataset(t, defn, doc, [write(pk)], pk, use_raw, {**base_case, "variant": "same field set, two field orders", "seq": list(seq),
+                                                                               "use_raw_values": use_raw, "packets": [p.hex() for p in pk]}, string_encoded)
             # (c) a polymorphic APID must be rejected with ValueError
             from space_packet_parser import xarr
             poly = [framing.mk_packet(bytes([0, 9]), apid=3), framing.mk_packet(bytes([1, 9]), apid=3, seqcount=1)]
@@ -325,7 +341,7 @@ def run(ctx):
     coverage = {
         "programs": tally.programs,
         "exhaustive": True,
-        "bound": (f"{len(ks)} definitions (each palette field kind on APID 1 + a boundary set of signed/unsigned widths 1..64; a fixed layout on APID 2; a polymorphic APID 3) x "
+        "bound": (f"{len(ks)} definitions (each palette field kind on APID 1 + a boundary set of signed/unsigned widths 1..64; a fixed layout on APID 2; a polymorphic APID 3; an APID 4 whose packets share one field set in two field orders) x "
                   "8 pattern payloads + 12 dtype-stress payloads (leading/trailing/embedded NUL, spaces, non-ASCII, tiny/huge MIL-STD-1750A, integer extremes) singly and "
                   f"together x use_raw_values {{F,T}}; every APID interleaving of <= {3 if ctx.quick else 4} packets over a 4-packet family x file lists [f1], [f1,f2], [f2,f1], [f1+stray bytes,f2], [f1+incomplete packet,f2]; "
                   "generator keyword arguments handed through (skip_header_bytes=4 on prefixed records, parse_bad_pkts in {F,T} with over-long packets in the stream) and the definition given as a str / Path"),
